@@ -456,6 +456,48 @@ def resolveall_random(rng, count, lattice_frac=0.5):
         made += 1
 
 
+
+def resolve2_random(rng, count):
+    """single resolver steps: two segments cut by the real factory from two different seed peaks of one molecule (ladders at
+    real scale incl. chromosome-scale coordinates, and dense lattices), taken in the order of their first pair"""
+    import codec
+    made = 0
+    while made < count:
+        if rng.random() < 0.5:
+            P = rand_params(rng)
+            R = make_reference(rng, rng.randrange(15, 60), rng.choice([3000, 9000]), rng.choice([200, 500, 2000]))
+            Q, off, _ = make_query(rng, R)
+            rev = rng.randrange(2)
+            if rev:
+                Q = mirror(Q)
+            peaks = ladder(rng, off)
+            if rng.random() < 0.3:
+                base = rng.randrange(100, 250) * 1000000 + rng.randrange(0, 1000)
+                R = [p + base for p in R]
+                peaks = [p + base for p in peaks]
+            segs = _real_segments(P, R, Q, rev, peaks, R[-1] + 1000)
+        else:
+            nr = rng.randrange(4, 11)
+            R = sorted(rng.sample(range(0, 30), nr))
+            Q = sorted(rng.sample(range(0, 18), rng.randrange(3, 8)))
+            Q = [q - Q[0] for q in Q]
+            rev = rng.randrange(2)
+            P = {"sp": 10, "dp": rng.choice([1, 2, 4]), "su": rng.choice([-1, -2, -3]), "md": rng.choice([1, 2]),
+                 "ms": rng.choice([10, 15, 20]), "bs": rng.choice([5, 12, 30])}
+            peaks = rng.sample(range(-4, 16), rng.randrange(2, 5))
+            segs = _real_segments(P, R, Q, rev, peaks, 31)
+        segs = [s for s in segs if s.positions]
+        if len(segs) < 2:
+            continue
+        segs.sort(key=lambda s: (s.alignedPositions[0].reference.position if s.alignedPositions else 0))
+        for a, b in zip(segs, segs[1:]):
+            if a.peak.position == b.peak.position:
+                continue
+            yield f"RESOLVE2 {pstr(P)} L={codec.show_seg(a)} R={codec.show_seg(b)}"
+            made += 1
+            if made >= count:
+                break
+
 # ------------------------------------------------------------------ indels
 def cluster_random(rng, count, sort=True):
     for _ in range(count):
